@@ -396,6 +396,11 @@ class PeerConnection:
         return f"<PeerConnection({self.ident}, {self.node_name}>"
 
     def __dispatch_message(self, msg: _AnyMessageType):
+        if self.state == PEER_CLOSED:
+            self.logger.warning(
+                f"connection has been closed, ignoring received message")
+            return
+
         if self.state == PEER_CONNECTED:
             if msg.header.command_code != constants.CMD_CAPABILITIES_EXCHANGE:
                 self.logger.warning(
